@@ -455,6 +455,14 @@ let spec_check (know : int list) (s : sx) =
       (* value level, Map<K, Orswot>: op-based causal delivery without state transfer -- the member table under
          every key is the specification of the knowledge (theorems C05_mapor_values_refine / C01_mapor_converge of
          proofs/MapOrswot.v; T2 needs a merge, T3 leaves member tables alone: never attributed to a known finding) *)
+      (* EXPERIMENT (statement validation, depth 2): Map<K1, Map<K2, Orswot>> under causal op-based delivery *)
+      if !ty = "mapmo" && not !merges_seen && !all_causal then begin
+        let i = map_inst or_inst in
+        let okv = m2valspec_ok (history_of (mop_sx i)) k (cmap_sx i s) in
+        stat ("mapval2_" ^ (if okv then "ok" else "bad"));
+        if not okv && (try Sys.getenv "VERIF_SHOW_M2" = "1" with Not_found -> false) then
+          Printf.printf "M2BAD case=%s cmd=%s\n" (fst !cur) (snd !cur)
+      end;
       (* EXPERIMENT (statement validation for the per-actor theorem): op-based per-actor delivery, no update carrying a nested remove *)
       if !ty = "mapor" && not !merges_seen && !all_per_actor && not !all_causal
          && not (List.exists (fun (_, o, _) -> Known.is_up o && Known.contains_remove (field "op" o)) !hist) then begin
